@@ -143,7 +143,7 @@ Definition enabled (SV : list svc) (s : st) : list gate :=
   (match own s with InBlock (_ :: _) => [GBlock] | _ => [] end) ++
   map GTask (filter (fun sid => task_at_gate (ts s sid)) (seq 0 (length SV))).
 
-Definition fuel_for (SV : list svc) (prog : list bop) : nat := 6 * length SV + 2 * length prog + 8.
+Definition fuel_for (SV : list svc) (prog : list bop) : nat := 6 * length SV + 5 * length prog + 8.
 
 Definition fire (SV : list svc) (prog : list bop) (s : st) (g : gate) : st * list obs :=
   match g with
